@@ -231,7 +231,11 @@ def ppPostProcessing (ast : Node) (parent : Option Node) (txt : Txt) : Except PE
 
 def c (ps : List Txt) (i : Nat) : Txt := ps.getD (i - 1) []      -- tempParam["c<i>"], "" if missing
 
-partial def visit (ast? : Option Node) (parent : Option Node) : Except PErr Txt := do
+/-- the recursive function `visit` of PrettyPrint; fuel-indexed (structural), fuel = a bound on the depth of the tree -/
+def visitF : Nat → Option Node → Option Node → Except PErr Txt
+  | 0, _, _ => throw PErr.panic     -- fuel exhausted (never with `visit`'s fuel on a tree of the driver)
+  | fuel+1, ast?, parent => do
+  let visit := visitF fuel
   let ast ← (match ast? with | some a => pure a | none => throw PErr.nilNode)
   let n := ast.children.length
   -- children first
@@ -279,9 +283,8 @@ partial def visit (ast? : Option Node) (parent : Option Node) : Except PErr Txt 
     post (s "(" ++ front ++ c ps (max n 1) ++ s ")")
   | "if" =>
     let guard (k : Nat) : Txt := c ps k ++ s " {\n" ++ c ps (k + 1) ++ s "}"
-    let mut out : Txt := s "if " ++ guard 1
-    let mut i := 0
-    while i < n do
+    -- the loop `for i := 0; i < len(ast.Children); i += 2`
+    let out ← ((List.range ((n + 1) / 2)).map (· * 2)).foldlM (fun (out : Txt) i => do
       -- Go: `i > 0 && i+2 == len(ast.Children) && ast.Children[i].Children[0].Name == NodeTRUE` (fix 9f2e979:
       -- the first branch is never an else branch); the guard's child is only read when the first two hold
       let isElse : Bool ← (if i > 0 && i + 2 = n then
@@ -291,10 +294,10 @@ partial def visit (ast? : Option Node) (parent : Option Node) : Except PErr Txt 
             | none => throw PErr.panic)
         else pure false)
       if isElse then
-        out := out ++ s " else {\n" ++ c ps (i + 2) ++ s "}"
+        pure (out ++ s " else {\n" ++ c ps (i + 2) ++ s "}")
       else if i > 0 then
-        out := out ++ s " elif " ++ guard (i + 1)
-      i := i + 2
+        pure (out ++ s " elif " ++ guard (i + 1))
+      else pure out) (s "if " ++ guard 1)
     post out
   | _ =>
     match tmpl key with
@@ -307,6 +310,9 @@ partial def visit (ast? : Option Node) (parent : Option Node) : Except PErr Txt 
         | .inr 100 => match ast.tok with | some t => pure (acc ++ quote t.val) | none => pure (acc ++ s "<no value>")
         | .inr k => pure (acc ++ c ps k)) []
       post txt
+
+/-- `visit` with a fuel far above the depth of any tree the driver sees -/
+def visit (ast? : Option Node) (parent : Option Node) : Except PErr Txt := visitF 100000 ast? parent
 
 def prettyPrint (ast : Option Node) : Except PErr Txt := do
   let r ← visit ast none
